@@ -124,7 +124,7 @@ def value_at(data, path):
     return cur
 
 
-def _error_paths(t: int, nul: int, fail: int, cfg: int) -> bool:
+def _error_paths(t: int, nul: int, fail: int, cfg: int, shared: bool = False) -> bool:
     """
     pre: 0 <= t < len(G.TEMPLATES) and 0 <= nul < len(G.NULLS) and 0 <= fail < len(G.FAILS) and 0 <= cfg <= 1
     pre: thorough() or nul == 0 or fail == 0
@@ -134,8 +134,11 @@ def _error_paths(t: int, nul: int, fail: int, cfg: int) -> bool:
     T = concrete_int(t, 0, len(G.TEMPLATES) - 1)
     text, variables = G.TEMPLATES[T]
     NUL, FAIL, C = pick(nul, G.NULLS), pick(fail, G.FAILS), concrete_int(cfg, 0, 1)
+    SH = True if shared else False
+    if SH and not FAIL:
+        return result(True, False)
     with untraced():
-        schema = G.build_real_schema(FAIL)
+        schema = G.build_real_schema(FAIL, shared_error=SH)        # SH: the failing resolvers all raise one and the same exception instance
         kw = dict(variables=variables, operation_name=G.OPNAMES.get(T), root=G.make_data(NUL, False))
         res = graphql_blocking(schema, text, **kw) if C == 0 else process_graphql_query(schema, text, executor_cls=Executor, **kw)
         resp = res.response()
@@ -159,18 +162,21 @@ def _error_paths(t: int, nul: int, fail: int, cfg: int) -> bool:
 
 MESSAGES = ("boom", "", "é\"\\\n", "x" * 300)
 STAGES = ("parse", "validate", "operation-selection", "variable-coercion", "resolver-error", "non-null", "list-item", "float-nan", "float-inf", "resolver-error-ext",
-          "variable-coercion-multi", "validate-multi-node", "validate-multi-error")
+          "variable-coercion-multi", "validate-multi-node", "validate-multi-error", "subscription-operation", "mutation-without-mutation-type")
 
 
-def failure_schema(msg, ext):
+def failure_schema(msg, ext, own_path=False):
+    """own_path: the resolver builds its error with the documented `path` argument (a path of its own choosing)"""
     def boom(root, ctx, info, **kw):
+        if own_path:
+            raise ResolverError(msg, path=["made", "up", 7], extensions=ext)
         raise ResolverError(msg, extensions=ext)
     obj = ObjectType("Obj", [Field("x", Int), Field("bad", Int, resolver=boom), Field("nn", NonNullType(Int))])
     q = ObjectType("Query", [
         Field("o", obj), Field("l", ListType(obj)), Field("bad", Int, resolver=boom), Field("nn", NonNullType(Int)),
         Field("f", Float), Field("fs", ListType(Float)), Field("a", Int), Field("s", String),
     ])
-    return Schema(q)
+    return Schema(q, subscription_type=ObjectType("Subscription", [Field("tick", Int, subscription_resolver=lambda *a, **k: None)]))
 
 
 EXT_KINDS = ("none", "dict", "mappingproxy", "OrderedDict", "UserDict", "ChainMap", "empty dict")
@@ -184,8 +190,9 @@ def make_extensions(kind):
             "UserDict": collections.UserDict(content), "ChainMap": collections.ChainMap({"code": 7}, {"nested": {"k": [1, "two"]}}), "empty dict": {}}[kind]
 
 
-def _failures(stage: int, m: int, cfg: int, ext: int, ast: bool = False) -> bool:
+def _failures(stage: int, m: int, cfg: int, ext: int, ast: bool = False, own_path: bool = False) -> bool:
     """
+    pre: not own_path or stage == 4 or stage == 9 or stage == 6
     pre: 0 <= stage < len(STAGES) and 0 <= m < len(MESSAGES) and 0 <= cfg <= 1 and 0 <= ext < len(EXT_KINDS)
     pre: ext <= 1 or stage == 9 or stage == 4
     post: _
@@ -193,11 +200,12 @@ def _failures(stage: int, m: int, cfg: int, ext: int, ast: bool = False) -> bool
     ST, MSG, C = pick(stage, STAGES), pick(m, MESSAGES), concrete_int(cfg, 0, 1)
     EK = pick(ext, EXT_KINDS)
     AST = True if ast else False
+    OP = True if own_path else False
     if AST and ST == "parse":
         return result(True, False)
     with untraced():
         EXT = make_extensions(EK)
-        schema = failure_schema(MSG, EXT)
+        schema = failure_schema(MSG, EXT, OP)
         root = {"o": {"x": 1, "nn": None}, "l": [{"x": 1, "nn": 2}, None, {"x": 3, "nn": None}], "nn": None, "a": 1, "s": "t",
                 "f": float("nan") if ST == "float-nan" else (float("inf") if ST == "float-inf" else 1.5), "fs": [1.0, float("-inf")] if ST.startswith("float") else [1.0]}
         query, variables, opname, expect_data = {
@@ -214,7 +222,11 @@ def _failures(stage: int, m: int, cfg: int, ext: int, ast: bool = False) -> bool
             "variable-coercion-multi": ("query ($v: Boolean!, $w: Boolean!) { a @skip(if: $v) s @include(if: $w) l { x @skip(if: $v) } o @include(if: $w) { x } }", {}, None, None),
             "validate-multi-node": ("{ a\n a: s\n o { x: nn\n  x } }", None, None, False),
             "validate-multi-error": ("{ nope a { x }\n ...Missing }\nfragment Unused on Query { a }", None, None, False),
+            "subscription-operation": ("subscription { tick }", None, None, None),
+            "mutation-without-mutation-type": ("mutation { a }", None, None, None),
         }[ST]
+        if ST == "subscription-operation" and known.c10_subscription_through_query_entry_point():
+            return result(True, False)
         if ST == "variable-coercion":
             query = "query ($v: Int!) { a b: a @skip(if: false) }"
         kw = dict(variables=variables, operation_name=opname, root=root)
@@ -301,18 +313,18 @@ CONDITIONS = [
     ),
     Cond(
         name="error_paths", fn=_error_paths, quick=120, thorough=600, per_path=60, shards_quick=16, shards_thorough=21,
-        bound="%d valid request templates x %d data worlds with a null placed at a (non-)nullable position x %d failing-resolver sets (quick: one of the two varies) x 2 executors; incl. execution-time argument coercion "
+        bound="%d valid request templates x %d data worlds with a null placed at a (non-)nullable position x %d failing-resolver sets (quick: one of the two varies) x fresh error objects or ONE shared ResolverError instance x 2 executors; incl. execution-time argument coercion "
               "failures on a field node resolved several times (list items, one fragment under several parents)" % (len(G.TEMPLATES), len(G.NULLS), len(G.FAILS)),
-        symbolic={"t": "choice: template", "nul": "choice: null placement", "fail": "choice: failing resolvers", "cfg": "choice: executor"},
+        symbolic={"t": "choice: template", "nul": "choice: null placement", "fail": "choice: failing resolvers", "cfg": "choice: executor", "shared": "choice: one error instance for all failures"},
         assumptions=["oracle: reference executor (oracles/ref_exec.py, spec section 6) gives the data and the multiset of (error path, field position); locations recomputed independently"],
-        witness={"t": 20, "nul": 0, "fail": 0, "cfg": 0},
+        witness={"t": 20, "nul": 0, "fail": 0, "cfg": 0, "shared": False},
     ),
     Cond(
         name="failures", fn=_failures, quick=60, thorough=120,
-        bound="13 failure stages (parse, validate, operation selection, variable coercion with one / several errors, validation errors with several nodes / several errors over several lines, resolver error, non-null, list item, "
-              "NaN, infinities, extensions) x 4 resolver-error messages (incl. empty, quotes/backslash/newline, long) x 2 executors x resolver-supplied extensions (none, dict, empty dict, and for the resolver-error stages mappingproxy / OrderedDict / UserDict / ChainMap) x request given as text or as a parsed document",
-        symbolic={"stage": "choice", "m": "choice: message", "cfg": "choice: BlockingExecutor / Executor", "ext": "choice: kind of Mapping given as extensions", "ast": "choice: text / parsed document"},
-        witness={"stage": 4, "m": 0, "cfg": 0, "ext": 0, "ast": False},
+        bound="15 failure stages (a subscription / a mutation operation sent to a schema or entry point that does not serve it, parse, validate, operation selection, variable coercion with one / several errors, validation errors with several nodes / several errors over several lines, resolver error, non-null, list item, "
+              "NaN, infinities, extensions) x 4 resolver-error messages (incl. empty, quotes/backslash/newline, long) x 2 executors x resolver-supplied extensions (none, dict, empty dict, and for the resolver-error stages mappingproxy / OrderedDict / UserDict / ChainMap) x request given as text or as a parsed document x resolver errors built plainly or with a `path` argument of their own (the response path is the field's)",
+        symbolic={"stage": "choice", "m": "choice: message", "cfg": "choice: BlockingExecutor / Executor", "ext": "choice: kind of Mapping given as extensions", "ast": "choice: text / parsed document", "own_path": "choice: the error carries a path already"},
+        witness={"stage": 4, "m": 0, "cfg": 0, "ext": 0, "ast": False, "own_path": False},
     ),
     Cond(
         name="render_kernel", fn=_render_kernel, quick=100, thorough=600, per_path=30,
